@@ -200,6 +200,15 @@ def load_findings():
 C_LOCALE = {'LC_ALL': 'C', 'LANG': 'C', 'PYTHONUTF8': '0', 'PYTHONCOERCECLOCALE': '0', 'PYTHONIOENCODING': 'utf-8'}
 
 
+def _description_of(pid):
+    """the check's description from tools/checks.json (the source of MANIFEST.json): dimensions added after the RULE text was written"""
+    try:
+        with open(os.path.join(HERE, 'tools', 'checks.json')) as f:
+            return ' || check description: ' + json.load(f)[pid]['text']
+    except Exception:  # noqa
+        return ''
+
+
 def run_check(pid, tier, seed, jobs):
     mod = load_mod(pid)
     t0 = time.time()
@@ -354,7 +363,7 @@ def run_check(pid, tier, seed, jobs):
     coverage = dict(
         evaluations=evaluations,
         distinct_nontrivial=len(distinct) + distinct_extra,
-        rule=getattr(mod, 'RULE', ''),
+        rule=getattr(mod, 'RULE', '') + _description_of(pid),
         samples=samples,
         exhaustive=bool(ex.get(tier, False)) if isinstance(ex, dict) else bool(ex),
         observed=dict(sorted(counters.items())),
